@@ -1454,3 +1454,69 @@ func c20r14(rc *core.RC) {
 		rc.Unknown("decoder/colon-tests", token.NoPos, "found %d tests of a byte against ':' that leave with an error (confirmed: 4)", n)
 	}
 }
+
+// ---- C20.R15 a text taken backwards from the cursor spans what the cursor just stepped over ----
+
+// Where a value's text is handed out as a part of the input after the cursor has moved past it, the part is
+// buf[cursor-K : cursor] and the step in front of it was cursor += N: K has to be N. The literals have different
+// lengths (true and null 4, false 5); a slice copied from a sibling clause hands out `alse`.
+func c20r15(rc *core.RC) {
+	p := rc.P
+	pk := p.Pkg("decoder")
+	if pk == nil {
+		rc.Unknown("decoder", token.NoPos, "package not found")
+		return
+	}
+	info := pk.TypesInfo
+	n := 0
+	for _, fd := range p.Funcs("decoder") {
+		if fd.Body == nil {
+			continue
+		}
+		name := p.FuncName(fd)
+		le := &core.LinearEval{Info: info, Pkg: pk, Body: fd.Body}
+		k := 0
+		var walk func(list []ast.Stmt)
+		walk = func(list []ast.Stmt) {
+			step := map[string]int64{} // cursor -> last constant advance in this list
+			for _, st := range list {
+				if as, ok := st.(*ast.AssignStmt); ok && as.Tok == token.ADD_ASSIGN && len(as.Lhs) == 1 && isCursorExpr(as.Lhs[0]) {
+					if v, isC := core.ConstInt(info, as.Rhs[0]); isC {
+						step[types.ExprString(core.Unparen(as.Lhs[0]))] = v
+					}
+				}
+				ast.Inspect(st, func(m ast.Node) bool {
+					switch x := m.(type) {
+					case *ast.BlockStmt:
+						walk(x.List)
+						return false
+					case *ast.CaseClause:
+						walk(x.Body)
+						return false
+					case *ast.SliceExpr:
+						if x.Low == nil || x.High == nil || !isCursorExpr(x.High) {
+							return true
+						}
+						cur := types.ExprString(core.Unparen(x.High))
+						lo := le.Eval(x.Low)
+						if !lo.OK || lo.Terms[cur] != 1 || len(nonzeroTerms(lo)) != 1 || lo.Const >= 0 {
+							return true
+						}
+						nstep, has := step[cur]
+						if !has {
+							return true
+						}
+						k++
+						n++
+						rc.Touch(name)
+						rc.Check(-lo.Const == nstep, fmt.Sprintf("%s/backward-slice#%d spans-the-step", name, k), x.Pos(), "%s is taken after %s += %d: the part handed out has to be the %d bytes the cursor stepped over (a width copied from a sibling literal hands out `alse` for false)", core.Src(p.Fset, x), cur, nstep, nstep)
+					}
+					return true
+				})
+			}
+		}
+		walk(fd.Body.List)
+	}
+	// no instance on a tree that hands out copies of the literals: the rule is kept alive by its seeded change
+	rc.OK("decoder/backward-slices", token.NoPos, "%d parts of the input taken backwards from a cursor behind a constant step, each spanning the step", n)
+}
